@@ -152,9 +152,10 @@ def _extract_omega_delta_phi(
             pchip = PCHIP1D(t_grid, signal.real)
             data_mid[:, q_pos] = pchip(t_mid)
             if name == "amp":
-                data_mid[-1, q_pos] = torch.where(
-                    data_mid[-1, q_pos] > 0,
-                    data_mid[-1, q_pos],
+                # with dt < 1 several midpoints lie beyond the last sample
+                data_mid[:, q_pos] = torch.where(
+                    data_mid[:, q_pos] > 0,
+                    data_mid[:, q_pos],
                     0,
                 )
 
